@@ -72,6 +72,19 @@ def case_insensitive_strxfrm(s: str) -> str:
     return s.casefold()
 
 
+_ASCII_LOWERCASE_TABLE = {cp: cp + 32 for cp in range(ord('A'), ord('Z') + 1)}
+
+
+def html_ascii_case_insensitive_strcoll(s1: str, s2: str) -> int:
+    s1 = s1.translate(_ASCII_LOWERCASE_TABLE)
+    s2 = s2.translate(_ASCII_LOWERCASE_TABLE)
+    return 0 if s1 == s2 else -1 if s1 < s2 else 1
+
+
+def html_ascii_case_insensitive_strxfrm(s: str) -> str:
+    return s.translate(_ASCII_LOWERCASE_TABLE)
+
+
 class CollationManager(context_class_base):
     """
     Context Manager for collations. Provide helper operators as methods.
@@ -108,8 +121,8 @@ class CollationManager(context_class_base):
             self.strxfrm = unicode_codepoint_strxfrm
         elif collation == HTML_ASCII_CASE_INSENSITIVE_COLLATION:
             self.lc_collate = None
-            self.strcoll = case_insensitive_strcoll
-            self.strxfrm = case_insensitive_strxfrm
+            self.strcoll = html_ascii_case_insensitive_strcoll
+            self.strxfrm = html_ascii_case_insensitive_strxfrm
         elif collation == XQUERY_TEST_SUITE_CASEBLIND_COLLATION:
             self.lc_collate = None
             self.strcoll = case_insensitive_strcoll
